@@ -210,6 +210,18 @@ CHECKS['C19'] = dict(
     note='Scheduling points are Python-level events inside wcmatch/*.py; C code (re, lru_cache) is atomic under the '
          'interpreter lock; preemption bound 1.')
 
+CHECKS['C10'] = dict(
+    level='exploration', engine='SEQ', design='6 C10',
+    technique='exhaustive bounded enumeration of pattern strings (two metacharacter alphabets, str and bytes), single-token '
+              'mutations of all small generated patterns and planted regex-significant substrings, executed on every entry '
+              'point of the real code; product-automaton equality for the malformed-construct catalogue; Bash [[ ]] oracle',
+    text='All strings up to length 5 (thorough 6) over * ? [ ] ( ) | ! @ \\ / a and up to 3 (4) over a 21-symbol alphabet, '
+         'bytes up to 4 (5), about 49k token mutations, 300 template x substring plants, x up to 11 flag sets x compile, '
+         'translate, match/filter on three names, is_magic, escape, glob/iglob/Path.glob/rglob/PurePath.match/WcMatch on a '
+         'real tree: only documented exceptions, every translate() regex compiles, entry points agree; malformed constructs '
+         'denote their escaped spelling (all names) and agree with Bash on 819 names.',
+    note='Patterns with an absolute piece are not handed to the walkers (they would walk the machine root).')
+
 PENDING = {}
 
 
